@@ -90,3 +90,20 @@ func init() {
 	checks["C03"] = checkC03
 	replayers["C03"] = replaySemCase(&SemOpts{})
 }
+
+func checkC04(c *Ctx) {
+	o := &SemOpts{}
+	cfg := "FamCalls_quick.cfg"
+	if c.Tier == "thorough" {
+		cfg = "FamCalls_thorough.cfg"
+	}
+	c.runSemFamily("FamCalls", cfg, o, 60*time.Minute)
+	c.cov("exhaustive", true)
+	c.cov("rule", "FamCalls: return (with value / bare / absent) at every nesting of if-then, if-else, block, while and for (hit in the first or a later iteration) up to CtxDepth; recursion (factorial with per-activation locals, fibonacci, mutual even/odd, Ackermann re-entering its own call site); every interleaving of <= HistLen calls to the two sibling closures of two counter instances; callee of every kind x 0..3 arguments; positional binding over all permutations of distinct arguments; functions stored in variables, arrays, objects and returned")
+	semAssumptions(c)
+}
+
+func init() {
+	checks["C04"] = checkC04
+	replayers["C04"] = replaySemCase(&SemOpts{})
+}
